@@ -1,4 +1,6 @@
-CONSTANTS NN = 2
+CONSTANTS FlawNoHopBound = FALSE
+ FlawStatelessHandle = FALSE
+ NN = 2
  MaxNodes = 3
  MaxDepth = 2
  QLen = 3
